@@ -2,7 +2,7 @@
 # seedmatrix.sh [seed...]: run every seeded change against the check of its property (and the cross checks
 # listed below) on the current /repo HEAD; writes seeded/RESULTS.tsv (seed, check, tier, exit, violations, first signature)
 cd /verif
-declare -A EXTRA=( [C20-10]="C12" [C14-9]="C05" [C18-10]="C01" [C03-10]="C01" [C17-11]="C04" [C16-11]="C07" [C04-11]="C02" [C05-11]="C02" [C20-7]="C12" [C20-8]="C10" [C02-6]="C07" [C17-8]="C16" [C01-8]="C08" [C12-8]="C17" [C20-5]="C10" [C17-5]="C04" [C20-3]="C10" [C18-1]="C08" [C08-1]="C01" [C13-1]="C02" [C17-1]="C02" )
+declare -A EXTRA=( [C08-7]="C01" [C17-13]="C04" [C20-13]="C12" [C01-12]="C18" [C20-10]="C12" [C14-9]="C05" [C18-10]="C01" [C03-10]="C01" [C17-11]="C04" [C16-11]="C07" [C04-11]="C02" [C05-11]="C02" [C20-7]="C12" [C20-8]="C10" [C02-6]="C07" [C17-8]="C16" [C01-8]="C08" [C12-8]="C17" [C20-5]="C10" [C17-5]="C04" [C20-3]="C10" [C18-1]="C08" [C08-1]="C01" [C13-1]="C02" [C17-1]="C02" )
 seeds="$@"; [ -z "$seeds" ] && seeds=$(ls seeded | grep -E '^C[0-9]+-[0-9]+$')
 out=seeded/RESULTS.tsv
 [ $# -eq 0 ] && : > $out
